@@ -7,6 +7,8 @@ CLAIMED = {
  "C18": ("Coq theorems: bitwise CRC-32 changes under every single-bit flip (linear-map argument over N), hence every single-bit corruption of a checksummed block or index file is rejected, and a block that does not verify is never served on the first or any later read (cache invariant); tied to the code by enumerating bit flips / overwrites / truncations of real column and index bytes through Column::get_block, ColumnIndex::from_bytes and SQL on real files, with the model's verdict compared inside Coq and crc32fast compared with the model CRC.", "DESIGN.md section 5 C18"),
  "C14": ("Coq theorems over a slot-wise model of the vectorised kernels of array/ops.rs (arithmetic with dev-profile overflow, division/modulo by zero, comparisons, AND/OR/NOT, CASE, IN, casts among BOOLEAN and the integer widths, ||) with ARBITRARY raw content under NULL slots: each kernel computes SQL three-valued semantics slot by slot, and the logical result of a whole expression (veval, mirroring evaluator.rs) is independent of the raw bits under NULL; tied to the code by evaluating generated expression trees with the executor's Evaluator over arrays built with chosen raw bits (validity AND raw content compared inside Coq), an independent scalar SQL reference, and SQL-level runs with constant folding on/off.", "DESIGN.md section 5 C14"),
  "C11": ("Coq theorems over executable models of the join, aggregation, top-N and limit executors on chunked input: the hash join equals the nested-loop join (inner, left, semi, anti; as lists) whenever the condition is the SQL equality of the keys, joins do not depend on the chunking, sort-then-limit equals top-N; INT-vs-BIGINT keys refuted. Tied to the code by running groups of hand-built physical plans (nested-loop / hash / merge joins of all six types, simple / hash / sort aggregation, top-N vs order+limit) over the same generated inputs through executor::build, comparing each operator's output with the model inside Coq and the implementations with each other.", "DESIGN.md section 5 C11"),
+ "C12": ("Coq theorems over the executable models of the order / top-N / limit executors: ORDER BY returns a permutation of its input that is sorted on the keys (per-key direction, NULL smallest), LIMIT/OFFSET returns exactly the prescribed slice of the concatenated input for EVERY chunking, top-N equals that slice of the full order. Tied to the code by plan-level correspondence (including 1023..1100-row chunks) and by SQL on both engines over tables built by several inserts, deletes and compaction, with an independent oracle; ORDER BY pk over several row-sets is a known finding.", "DESIGN.md section 5 C12"),
+ "C02": ("Coq theorems that the operator models compute what SQL prescribes (WHERE keeps TRUE rows only, inner join = matching pairs, left join pads unmatched rows, comparisons with NULL are NULL, AND/OR truth tables, aggregates skip NULLs, COUNT 0 / NULL on empty input, hash join = nested loop); tied to the code by the shared operator correspondence and, for the reading of standard SQL, by differential testing of generated core-subset queries on both engines against SQLite 3.40 (bags; sequences on ORDER BY keys), optimizer on and off.", "DESIGN.md section 5 C02"),
 }
 HOOK_COMMITS = ["d1a7d6f", "7f91116", "5cff986"]
 def main():
